@@ -15,5 +15,9 @@ for mod, err in missing:
     else:
         print("setup: cannot import", mod, err)
         sys.exit(1)
+import os
+sys.path.insert(0, os.path.dirname(os.path.dirname(os.path.abspath(__file__))))
+from simkit import perf
+print("setup: chunkcache built:", perf.build())
 import psyclone
 print("setup ok: psyclone from", psyclone.__file__)
